@@ -232,7 +232,7 @@ Theorem pre_cache_sufficient' : forall B (x y : pre_input),
   pre_key x = pre_key y -> pre_deps x = pre_deps y.
 Proof. exact (pre_cache_sufficient node_eqb node_eqb_sound). Qed.
 
-(* ------------------------------------------------------------------ 1-3, 7: the keys of 25aa9f6 *)
+(* ------------------------------------------------------------------ 1-3, 7: the [hash_deep] keys (25aa9f6, 7da4086) *)
 
 (** on a [deep] / [shallow] tree, put back the signature the table assigns to each body hash *)
 Fixpoint fillsigd (T : N -> N) (x : node) : node :=
@@ -243,9 +243,9 @@ Fixpoint fillsigd (T : N -> N) (x : node) : node :=
   | other => other
   end.
 
-Lemma no_names_fill : forall T x, wf_sigd T x = true -> no_names x = fillsigd T (deep x).
+Lemma no_origin_fill : forall T x, wf_sigd T x = true -> no_origin x = fillsigd T (deep x).
 Proof.
-  intros T. induction x using node_ind'; intros W; cbn [no_names deep fillsigd wf_sigd] in *; try reflexivity.
+  intros T. induction x using node_ind'; intros W; cbn [no_origin deep fillsigd wf_sigd] in *; try reflexivity.
   - f_equal. rewrite map_map. apply map_ext_in. intros a Ha. cbn [fst snd].
     rewrite Forall_forall in H. rewrite forallb_forall in W. rewrite (H a Ha (W a Ha)). reflexivity.
   - apply andb_prop in W. destruct W as [W1 W2]. apply N.eqb_eq in W1. subst fs. rewrite (IHx W2). reflexivity.
@@ -253,23 +253,23 @@ Proof.
     rewrite Forall_forall in H. rewrite forallb_forall in W. apply H; auto.
 Qed.
 
-(** the inverse caches' key determines everything the inversion reads EXCEPT the names (and
-    origins) of the function handles *)
-Theorem inv_cache_sufficient_modulo_names : forall T (x y : inv_input),
+(** the inverse caches' key determines everything the cached value is made of — spans, function
+    indices, bodies and NAMES — (all but the origin field of the handles) *)
+Theorem inv_cache_sufficient : forall T (x y : inv_input),
   forallb (wf_sigd T) (fst x) = true -> forallb (wf_sigd T) (fst y) = true ->
-  inv_key x = inv_key y -> inv_deps_no_names x = inv_deps_no_names y.
+  inv_key x = inv_key y -> inv_deps_named x = inv_deps_named y.
 Proof.
-  intros T [x ex] [y ey] Wx Wy E. unfold inv_key, inv_deps_no_names in *. cbn [fst snd] in *.
+  intros T [x ex] [y ey] Wx Wy E. unfold inv_key, inv_deps_named in *. cbn [fst snd] in *.
   injection E as E1 E2. subst ey. f_equal.
   rewrite forallb_forall in Wx, Wy.
-  assert (R : forall l, (forall a, In a l -> wf_sigd T a = true) -> map no_names l = map (fillsigd T) (map deep l)).
-  { intros l W. rewrite map_map. apply map_ext_in. intros a Ha. apply no_names_fill. apply W; assumption. }
+  assert (R : forall l, (forall a, In a l -> wf_sigd T a = true) -> map no_origin l = map (fillsigd T) (map deep l)).
+  { intros l W. rewrite map_map. apply map_ext_in. intros a Ha. apply no_origin_fill. apply W; assumption. }
   rewrite (R x Wx), (R y Wy), E1. reflexivity.
 Qed.
 
-Lemma zip_no_names_fill : forall T x, wf_sig T x = true -> no_bodies (no_names x) = fillsig T (shallow x).
+Lemma zip_no_origin_fill : forall T x, wf_sig T x = true -> no_bodies (no_origin x) = fillsig T (shallow x).
 Proof.
-  intros T. induction x using node_ind'; intros W; cbn [no_bodies no_names shallow fillsig wf_sig] in *; try reflexivity.
+  intros T. induction x using node_ind'; intros W; cbn [no_bodies no_origin shallow fillsig wf_sig] in *; try reflexivity.
   - f_equal. rewrite !map_map. apply map_ext_in. intros a Ha. cbn [fst snd].
     rewrite Forall_forall in H. rewrite forallb_forall in W. rewrite (H a Ha (W a Ha)). reflexivity.
   - apply N.eqb_eq in W. subst fs. reflexivity.
@@ -278,15 +278,48 @@ Proof.
 Qed.
 
 (** the fast-function cache's key ([hash_deep(None)]: the bodies are not walked) determines the
-    closure except for the handles' names: the closure does not contain the bodies, it
-    resolves the function index in the assembly that is current when it runs *)
-Theorem zip_cache_sufficient_modulo_names : forall T (x y : node),
+    closure, names included: the closure does not contain the bodies, it resolves the
+    function index in the assembly that is current when it runs *)
+Theorem zip_cache_sufficient : forall T (x y : node),
   wf_sig T x = true -> wf_sig T y = true ->
-  zip_key x = zip_key y -> zip_deps_no_names x = zip_deps_no_names y.
+  zip_key x = zip_key y -> zip_deps_named x = zip_deps_named y.
 Proof.
-  intros T x y Wx Wy E. unfold zip_key, zip_deps_no_names in *.
-  rewrite (zip_no_names_fill T x Wx), (zip_no_names_fill T y Wy), E. reflexivity.
+  intros T x y Wx Wy E. unfold zip_key, zip_deps_named in *.
+  rewrite (zip_no_origin_fill T x Wx), (zip_no_origin_fill T y Wy), E. reflexivity.
 Qed.
+
+(** hence: with the current keys, on every history (of well-formed inputs) a hit returns what
+    a fresh computation returns, for every function of those dependencies (trees, errors
+    and traces that mention names included) *)
+Section Transparent.
+  Context {K V : Type}.
+  Variable keqb : K -> K -> bool.
+  Hypothesis keqb_spec : forall a b, keqb a b = true <-> a = b.
+
+  Theorem inv_cache_transparent : forall T (kinj : list node * (N * bool) -> K),
+    (forall a b, kinj a = kinj b -> a = b) ->
+    forall (g : list node * (N * bool) -> V) usable (history : list inv_input),
+    (forall x, In x history -> forallb (wf_sigd T) (fst x) = true) ->
+    run_memo keqb usable (fun x => kinj (inv_key x)) (fun x => g (inv_deps_named x)) history
+    = map (fun x => g (inv_deps_named x)) history.
+  Proof.
+    intros T kinj Hinj g usable h W. apply (memo_transparent_on keqb keqb_spec).
+    intros x y Hx Hy E. apply Hinj in E.
+    rewrite (inv_cache_sufficient T x y (W x Hx) (W y Hy) E). reflexivity.
+  Qed.
+
+  Theorem zip_cache_transparent : forall T (kinj : node -> K),
+    (forall a b, kinj a = kinj b -> a = b) ->
+    forall (g : node -> V) usable (history : list node),
+    (forall x, In x history -> wf_sig T x = true) ->
+    run_memo keqb usable (fun x => kinj (zip_key x)) (fun x => g (zip_deps_named x)) history
+    = map (fun x => g (zip_deps_named x)) history.
+  Proof.
+    intros T kinj Hinj g usable h W. apply (memo_transparent_on keqb keqb_spec).
+    intros x y Hx Hy E. apply Hinj in E.
+    rewrite (zip_cache_sufficient T x y (W x Hx) (W y Hy) E). reflexivity.
+  Qed.
+End Transparent.
 
 (* ------------------------------------------------------------------ witnesses *)
 
@@ -294,26 +327,53 @@ Qed.
 Definition DIP := 7. Definition JOIN := 11. Definition ROWS := 13. Definition REDUCE := 17.
 Definition REVERSE := 19. Definition FIRST := 23. Definition ADD := 29. Definition MUL := 31.
 Definition RISE := 37. Definition SELECT := 41.
-Definition S11 := 65537. Definition S21 := 65538.   (* signatures |1.1 and |2.1 *)
+Definition S11 := 65537. Definition S21 := 65538. Definition S01c := 65536.   (* |1.1, |2.1, |0.1 *)
 
-(** names.  The real pair (confirmed by the harness on every run):
-      F ← ⍏ / °F [1 2]     then     G ← ⍏ / °G [1 2]
-    same content, spans, function index; the cached error says "cannot invert F because …" *)
-Definition un_n1 : inv_input := ([NCall 70 S11 0 55 1 (NPrim RISE 2) 4], (0, false)).
-Definition un_n2 : inv_input := ([NCall 71 S11 0 55 1 (NPrim RISE 2) 4], (0, false)).
-Theorem inv_cache_refuted : exists x y, inv_key x = inv_key y /\ inv_deps x <> inv_deps y.
-Proof. exists un_n1, un_n2. split; [reflexivity|]. intro H. vm_compute in H. discriminate H. Qed.
+(** why the function index must be part of the key even though the body is walked.
+      X ← 5 / K ← (7) / F ← °(+K) / F ⌊⚂      and the same with      X ← (5)
+    [°(+K)] keeps the call to K in the inverse; the call expression, K's body and every span
+    index coincide; K is function 0 in the first assembly and function 1 in the second.
+    A key that hashes the body instead of the index gives both the same entry, and the
+    second program then executes function 0 (X): [¯5] instead of [¯7]. *)
+Definition ix_w1 : inv_input := ([NCall 75 S01c 0 88 2 (NPush 7) 9; NPrim ADD 8], (0, false)).
+Definition ix_w2 : inv_input := ([NCall 75 S01c 1 88 2 (NPush 7) 9; NPrim ADD 8], (0, false)).
+Theorem inv_key_without_index_refuted :
+  exists x y, inv_key_no_index x = inv_key_no_index y /\ inv_deps_named x <> inv_deps_named y.
+Proof. exists ix_w1, ix_w2. split; [reflexivity|]. intro H. vm_compute in H. discriminate H. Qed.
+Theorem inv_key_separates_index : inv_key ix_w1 <> inv_key ix_w2.
+Proof. intro H. vm_compute in H. discriminate H. Qed.
+
+(** remark (no real witness: a text program cannot change a function's origin binding without
+    adding a span): the origin field of a kept handle is not determined by the key *)
+Definition or_w1 : inv_input := ([NCall 75 S01c 0 88 1 (NPush 7) 9], (0, false)).
+Definition or_w2 : inv_input := ([NCall 75 S01c 0 88 2 (NPush 7) 9], (0, false)).
+Remark inv_key_forgets_origin : inv_key or_w1 = inv_key or_w2 /\ inv_deps or_w1 <> inv_deps or_w2.
+Proof. split; [reflexivity|]. intro H. vm_compute in H. discriminate H. Qed.
+
+(** the spans-table length.  The real pair (confirmed by the harness on every run):
+      F ← ⊙5 / °F 1 6        then        F ← ⊙5 / X ← 1 / Y ← 2 / °F 1 6
+    [°F] inverts F's body [⊙5] (span indices 2, the same in both); the table has 6 spans at
+    that moment in the first program and 10 in the second; the cached [MatchPattern] carries
+    span 5: the second program's error is reported at 2:1 instead of 4:2 (and with the
+    programs in the other order the index is out of range: "The compiler has crashed") *)
+Definition len_w1 : inv_input_l := (([NMod DIP [(NPush 5, S01c)] 2], (0, false)), 6).
+Definition len_w2 : inv_input_l := (([NMod DIP [(NPush 5, S01c)] 2], (0, false)), 10).
+Theorem inv_cache_spans_len_refuted : exists x y, inv_key_l x = inv_key_l y /\ inv_deps_l x <> inv_deps_l y.
+Proof. exists len_w1, len_w2. split; [reflexivity|]. intro H. vm_compute in H. discriminate H. Qed.
+
+Theorem inv_l_fix_sufficient : forall T (x y : inv_input_l),
+  forallb (wf_sigd T) (fst (fst x)) = true -> forallb (wf_sigd T) (fst (fst y)) = true ->
+  inv_key_l_fix x = inv_key_l_fix y -> inv_deps_l x = inv_deps_l y.
+Proof.
+  intros T [x lx] [y ly] Wx Wy E. unfold inv_key_l_fix, inv_deps_l in *. cbn [fst snd] in *.
+  assert (E1 : inv_key x = inv_key y) by (apply (f_equal fst) in E; exact E).
+  assert (E2 : lx = ly) by (apply (f_equal snd) in E; exact E). subst ly.
+  rewrite (inv_cache_sufficient T x y Wx Wy E1). reflexivity.
+Qed.
 
 Theorem inv_fix_sufficient : forall (V : Type) (g : list node * (N * bool) -> V),
   sufficient inv_key_fix (fun x => g (inv_deps x)).
 Proof. intros V g x y E. unfold inv_key_fix, inv_deps in *. rewrite E. reflexivity. Qed.
-
-(** names, fast functions.  F ← ⊏ / ≡(/F⇌) [1_2 3_9]   then   G ← ⊏ / ≡(/G⇌) [1_2 3_8]:
-    the trace of the second program's error names F *)
-Definition zip_n1 : node := NRun [NPrim REVERSE 8; NMod REDUCE [(NCall 70 S21 0 66 1 (NPrim SELECT 2) 6, S21)] 5].
-Definition zip_n2 : node := NRun [NPrim REVERSE 8; NMod REDUCE [(NCall 71 S21 0 66 1 (NPrim SELECT 2) 6, S21)] 5].
-Theorem zip_cache_refuted : exists x y, zip_key x = zip_key y /\ zip_deps x <> zip_deps y.
-Proof. exists zip_n1, zip_n2. split; [reflexivity|]. intro H. vm_compute in H. discriminate H. Qed.
 
 Theorem zip_fix_sufficient : forall (V : Type) (g : node -> V), sufficient zip_key_fix (fun x => g (zip_deps x)).
 Proof. intros V g x y E. unfold zip_key_fix, zip_deps in *. rewrite E. reflexivity. Qed.
